@@ -86,8 +86,9 @@ def verify(pid, ab):
 
 
 if __name__ == "__main__":
-    if len(sys.argv) > 1 and sys.argv[1] == "--round2":
-        SRC_PREFIX, ID_PREFIX = "seed2", "S2"
+    if len(sys.argv) > 1 and sys.argv[1].startswith("--round"):
+        n = sys.argv[1][len("--round"):]
+        SRC_PREFIX, ID_PREFIX = "seed" + n, "S" + n
         sys.argv.pop(1)
     sh(f"git -C /repo worktree remove --force {WT}")
     r = sh(f"git -C /repo worktree add -q --detach {WT} HEAD")
